@@ -231,15 +231,62 @@ void make_history(int h)
 }
 
 // ------------------------------------------------------------ (A) history before output
+// The result of a conversion is a function of its arguments: it must not depend on unrelated
+// conversions made earlier on the same thread.  The reference text is what THE SAME fcppt
+// function returned for the same value before any state-leaving conversion was made in this
+// process (no particular format is prescribed), and reading must give the value back.
+template <class T> std::string produce_narrow(int variant, T const &v, std::locale const &grp, std::locale const &classic)
+{
+  switch (variant)
+  {
+  case 0: return fcppt::output_to_std_string(v);
+  case 1: return fcppt::output_to_string<std::string>(v);
+  case 2: return fcppt::output_to_fcppt_string(v);
+  case 3: return fcppt::output_to_std_string_locale(v, grp);
+  default: return fcppt::output_to_string_locale<std::string>(v, classic);
+  }
+}
+template <class T> std::wstring produce_wide(int variant, T const &v, std::locale const &grp)
+{
+  switch (variant)
+  {
+  case 5: return fcppt::output_to_std_wstring(v);
+  case 6: return fcppt::output_to_string<std::wstring>(v);
+  default: return fcppt::output_to_std_wstring_locale(v, grp);
+  }
+}
+template <class T, class Str> fcppt::optional::object<T> read_back(int variant, Str const &s, std::locale const &grp, std::locale const &classic)
+{
+  switch (variant)
+  {
+  case 3:
+  case 7: return fcppt::extract_from_string_locale<T>(s, grp);
+  case 4: return fcppt::extract_from_string_locale<T>(s, classic);
+  default: return fcppt::extract_from_string<T>(s);
+  }
+}
+
 template <class T, bool Wide> void history_values(char const *tname, std::vector<T> const &vals)
 {
   static std::string const name = std::string("history_output<") + tname + ">";
   std::locale const classic = std::locale::classic();
   std::locale const grp = c15s::grouping_locale();
-  std::locale const global; // the global locale (what the plain forms use)
+  constexpr int nvar = Wide ? 8 : 5;
+  // baseline: no state-leaving conversion has happened yet for this value type's first use
+  std::vector<std::string> base_n;
+  std::vector<std::wstring> base_w;
+  for (std::size_t vi = 0; vi < vals.size(); ++vi)
+    for (int variant = 0; variant < nvar; ++variant)
+    {
+      T const &v = vals[vi];
+      if (variant < 5)
+        base_n.push_back(produce_narrow<T>(variant, v, grp, classic));
+      else if constexpr (Wide)
+        base_w.push_back(produce_wide<T>(variant, v, grp));
+    }
   for (std::size_t vi = 0; vi < vals.size(); ++vi)
     for (int h = 0; h < c15s::n_hist; ++h)
-      for (int variant = 0; variant < (Wide ? 8 : 5); ++variant)
+      for (int variant = 0; variant < nvar; ++variant)
       {
         T const &v = vals[vi];
         if (!vrt::begin(name.c_str(), vi, h, variant))
@@ -249,69 +296,23 @@ template <class T, bool Wide> void history_values(char const *tname, std::vector
         vrt::maybe_sample();
         make_history(h);
         auto judge = [&](auto const &text, auto const &want, fcppt::optional::object<T> const &back) {
-          VRT_CHECK(text == want, name + ":text_changed", "%s after a conversion that left '%s': text \"%s\", a fresh stream writes \"%s\"",
-                    vshow(v).c_str(), c15s::hist_name(h), N(text).c_str(), N(want).c_str());
+          VRT_CHECK(text == want, name + ":text_changed",
+                    "%s after a conversion that left '%s': text \"%s\", the same call gave \"%s\" before any such conversion", vshow(v).c_str(),
+                    c15s::hist_name(h), N(text).c_str(), N(want).c_str());
           VRT_CHECK(back.has_value() && back.get_unsafe() == v, name + ":roundtrip",
                     "%s after a conversion that left '%s': text \"%s\" reads back as %s", vshow(v).c_str(), c15s::hist_name(h),
                     N(text).c_str(), oshow(back).c_str());
         };
-        switch (variant)
+        if (variant < 5)
         {
-        case 0:
+          std::string const s = produce_narrow<T>(variant, v, grp, classic);
+          judge(s, base_n[vi * 5 + static_cast<std::size_t>(variant)], read_back<T>(variant, s, grp, classic));
+        }
+        else if constexpr (Wide)
         {
-          std::string const s = fcppt::output_to_std_string(v);
-          judge(s, fresh_text<char>(v, global), fcppt::extract_from_string<T>(s));
-          break;
+          std::wstring const s = produce_wide<T>(variant, v, grp);
+          judge(s, base_w[vi * 3 + static_cast<std::size_t>(variant - 5)], read_back<T>(variant, s, grp, classic));
         }
-        case 1:
-        {
-          std::string const s = fcppt::output_to_string<std::string>(v);
-          judge(s, fresh_text<char>(v, global), fcppt::extract_from_string<T>(s));
-          break;
-        }
-        case 2:
-        {
-          fcppt::string const s = fcppt::output_to_fcppt_string(v);
-          judge(s, fresh_text<char>(v, global), fcppt::extract_from_string<T>(s));
-          break;
-        }
-        case 3:
-        {
-          std::string const s = fcppt::output_to_std_string_locale(v, grp);
-          judge(s, fresh_text<char>(v, grp), fcppt::extract_from_string_locale<T>(s, grp));
-          break;
-        }
-        case 4:
-        {
-          std::string const s = fcppt::output_to_string_locale<std::string>(v, classic);
-          judge(s, fresh_text<char>(v, classic), fcppt::extract_from_string_locale<T>(s, classic));
-          break;
-        }
-        default: break;
-        }
-        if constexpr (Wide)
-          switch (variant)
-          {
-          case 5:
-          {
-            std::wstring const s = fcppt::output_to_std_wstring(v);
-            judge(s, fresh_text<wchar_t>(v, global), fcppt::extract_from_string<T>(s));
-            break;
-          }
-          case 6:
-          {
-            std::wstring const s = fcppt::output_to_string<std::wstring>(v);
-            judge(s, fresh_text<wchar_t>(v, global), fcppt::extract_from_string<T>(s));
-            break;
-          }
-          case 7:
-          {
-            std::wstring const s = fcppt::output_to_std_wstring_locale(v, grp);
-            judge(s, fresh_text<wchar_t>(v, grp), fcppt::extract_from_string_locale<T>(s, grp));
-            break;
-          }
-          default: break;
-          }
       }
 }
 
@@ -449,9 +450,16 @@ void state_case(std::string const &name, std::vector<T> const &elems, fstate con
   }
   else
   {
+    // matrix/output.hpp: "So it'll be the same as if you output the column vectors using the
+    // according operator<<": the rows written by the vector inserter in the same state
     want = W<Ch>("(");
     for (std::size_t i = 0; i < elems.size(); i += 2)
-      want += (i ? W<Ch>(",") : str()) + W<Ch>("(") + elem_text<Ch>(elems[i], st) + W<Ch>(",") + elem_text<Ch>(elems[i + 1], st) + W<Ch>(")");
+    {
+      fcppt::math::vector::static_<T, 2> row{fcppt::no_init{}};
+      row.get_unsafe(0) = elems[i];
+      row.get_unsafe(1) = elems[i + 1];
+      want += (i ? W<Ch>(",") : str()) + elem_text<Ch>(row, st);
+    }
     want += W<Ch>(")");
   }
   for (T const &x : elems)
@@ -463,8 +471,16 @@ void state_case(std::string const &name, std::vector<T> const &elems, fstate con
   ss << obj;
   str const text = ss.str();
   if (st.width == 0)
-    VRT_CHECK(text == want, name + ":state_text", "%s stream in state [%s]: wrote \"%s\", the elements' own inserters give \"%s\"", chn,
-              sname(st).c_str(), N(text).c_str(), N(want).c_str());
+  {
+    if (nesting == 2)
+      VRT_CHECK(text == want, name + ":state_text", "%s stream in state [%s]: wrote \"%s\", the rows written as vectors give \"%s\"", chn,
+                sname(st).c_str(), N(text).c_str(), N(want).c_str());
+    else if (text != want)
+      // Whether showbase/showpos/uppercase/hex of the stream apply to the components is not
+      // documented ("(a_1,a_2,...) where a_i are the components"); only the round trip in the
+      // same state is the property.  Recorded, never a verdict.
+      vrt::count("info:state_text_differs_from_element_inserters");
+  }
   if constexpr (HasInput)
     if (all_rt && (st.width == 0 || st.fill == ' '))
   {
